@@ -26,7 +26,8 @@ def run_sharded(script, tier, seed, nshards):
     with ThreadPoolExecutor(nshards) as ex:
         parts = list(ex.map(one, range(nshards)))
     out = {'scenarios': sum(p['scenarios'] for p in parts), 'scope': parts[0]['scope'], 'clauses': parts[0]['clauses'],
-           'fails': {}}
+           'nontrivial': sum(p.get('nontrivial', 0) for p in parts),
+           'samples': [p['sample'] for p in parts if p.get('sample')][:3], 'fails': {}}
     for p in parts:
         for k, v in p['fails'].items():
             out['fails'].setdefault(k, v)
@@ -43,6 +44,7 @@ def obligations(prefix, script, tier, seed, replay_template, nshards=None):
         d = {'name': '%s.%s' % (prefix, c), 'kind': 'bounded', 'line': None, 'backend': 'bounded-enumeration',
              't': round(time.time() - t0, 2),
              'info': {'clause': c, 'bounded': True, 'scope': r['scope'], 'scenarios_executed': r['scenarios'],
+                      'nontrivial': r['nontrivial'], 'scenario_samples': r['samples'],
                       'note': 'bounded stand-in: every scenario of the stated scope executed on the real function; '
                               'not a proof'}}
         if f is None:
